@@ -310,6 +310,8 @@ TARGETED = [
     'clear = { PUSH("a") ~ PUSH("b") ~ DROP* ~ PEEK_ALL ~ "c" }\nclear_opt = { PUSH("a") ~ PUSH("b") ~ DROP* ~ PEEK_ALL ~ "a"? }\nindent = { PUSH(" "*) ~ "x" }\nunwind = { PUSH("zz") ~ indent ~ indent ~ POP* }\npops = ${ PUSH("a") ~ PUSH("") ~ POP+ ~ "b" }',
     # a succeeding look-ahead that touches the stack, followed by a repetition over the stack (ends only if the predicate restored)
     'fence = { PUSH("ab") ~ &(PUSH(" "*) ~ "ab") ~ PEEK* ~ DROP }\nlk = ${ PUSH("a") ~ &(POP ~ PUSH("b")) ~ PEEK ~ "b"? }\nlook = { &PUSH("a") ~ "a" ~ PEEK_ALL ~ "b" }\nlookA = @{ &PUSH("a") ~ "a" ~ PEEK_ALL ~ "b" }',
+    # rules whose expression may or may not end with EOI; full parse with trailing blanks / comments
+    'WHITESPACE = _{ " " | "\\t" }\nCOMMENT = _{ "#" ~ (!NEWLINE ~ ANY)* }\nword = @{ ASCII_ALPHA+ }\nline = { word+ ~ (NEWLINE | EOI) }\nsil = _{ word ~ (";" ~ EOI | word) }\nna = !{ word+ }\nfile = { SOI ~ word* ~ EOI }',
     # zero-width tokens under an optional
     'call = { name ~ "(" ~ args? ~ ")" }\nname = { "f" }\nargs = { (arg ~ ("," ~ arg)*)? }\narg = { "1" }\ntail = { "x"* }\nm = { "y" ~ tail? }\nend = { "a" ~ EOI? }',
     # insensitive / ranges / multi-byte
